@@ -81,8 +81,8 @@ func runCrashChild(args []string) {
 		b, _ := json.Marshal(line)
 		f.Write(append(b, '\n'))
 	}
-	if commitKill > 0 {
-		killAtCommit(commitKill)
+	if haveHooks {
+		killAtCommit(commitKill) // with 0 it only counts the committed transactions
 	}
 	if from == 0 {
 		if err := w.openStore(true); err != nil {
@@ -131,7 +131,7 @@ func runCrashChild(args []string) {
 	}
 	w.store.Close()
 	f.Close()
-	ioutil.WriteFile(statusFile, []byte("OK\n"), 0644)
+	ioutil.WriteFile(statusFile, []byte("OK\n"+strconv.Itoa(commitCount)+"\n"), 0644)
 }
 
 func runCrashObserve(args []string) {
